@@ -24,6 +24,17 @@ fn pt<F: AnyF, S: Src>(s: &mut S) -> Coord<F> {
     Coord { x: fin::<F, S>(s), y: fin::<F, S>(s) }
 }
 
+/// vertex number `i` of an instance.  mode 1: x is the concrete value i (all vertices distinct by construction, so the
+/// number of events is concrete), y symbolic; mode 2: transposed; mode 0: both symbolic.
+fn vtx<F: AnyF, S: Src>(s: &mut S, mode: u8, i: u32) -> Coord<F> {
+    let c = F::from(i as f64).unwrap();
+    match mode {
+        1 => Coord { x: c, y: fin::<F, S>(s) },
+        2 => Coord { x: fin::<F, S>(s), y: c },
+        _ => pt::<F, S>(s),
+    }
+}
+
 fn ring<F: AnyF>(v: [Coord<F>; 3]) -> LineString<F> {
     LineString(vec![v[0], v[1], v[2], v[0]])
 }
@@ -61,30 +72,6 @@ fn take_pushed<F: AnyF>(queue: BinaryHeap<Rc<SweepEvent<F>>>) -> Vec<Rc<SweepEve
     queue.into_vec()
 }
 
-/// checks the events created for ring `r` starting at position `k` of the push record; returns the next position.
-/// `collapsed` (concrete per harness) is the index of the one edge that is degenerate, 3 = none: the positions in the
-/// push record stay concrete.
-fn check_ring<F: AnyF>(ev: &[Rc<SweepEvent<F>>], mut k: usize, r: [Coord<F>; 3], collapsed: usize, subj: bool, id: u32, exterior: bool) -> usize {
-    let mut e = 0;
-    while e < 3 {
-        let (u, v) = (r[e], r[(e + 1) % 3]);
-        if e != collapsed {
-            assert!(k + 1 < ev.len(), "C13: one pair of events per non-degenerate edge");
-            let (e1, e2) = (&ev[k], &ev[k + 1]);
-            assert!(e1.point == u && e2.point == v, "C04/C13: the two events sit on the edge's two vertices, bit for bit");
-            assert!(linked(e1, e2), "C13: the pair is mutually linked");
-            assert!(e1.is_left() != e2.is_left(), "C13: exactly one of the pair is the left event");
-            assert!(e1.is_left() == lex_lt(u, v), "C13/C07: the left event is the (x, y)-smaller vertex, whatever the edge's direction");
-            assert!(e1.is_subject == subj && e2.is_subject == subj, "C13: operand flag");
-            assert!(e1.contour_id == id && e2.contour_id == id, "C05/C13: contour id");
-            assert!(e1.is_exterior_ring == exterior && e2.is_exterior_ring == exterior, "C05/C13: exterior-ring flag");
-            k += 2;
-        }
-        e += 1;
-    }
-    k
-}
-
 /// exactly the edge `collapsed` of the ring is degenerate (3: none)
 fn ring_shape<F: AnyF>(r: [Coord<F>; 3], collapsed: usize) -> bool {
     let mut ok = true;
@@ -96,59 +83,76 @@ fn ring_shape<F: AnyF>(r: [Coord<F>; 3], collapsed: usize) -> bool {
     ok
 }
 
-fn fold_box<F: AnyF>(rings: &[[Coord<F>; 3]]) -> (bool, BoundingBox<F>) {
-    // exact box over the vertices of rings that have an edge at all
-    let mut b = BoundingBox { min: Coord { x: F::infinity(), y: F::infinity() }, max: Coord { x: F::neg_infinity(), y: F::neg_infinity() } };
-    let mut any = false;
-    let mut i = 0;
-    while i < rings.len() {
-        let r = rings[i];
-        if r[0] != r[1] || r[1] != r[2] {
-            any = true;
-            let mut j = 0;
-            while j < 3 {
-                if r[j].x < b.min.x { b.min.x = r[j].x; }
-                if r[j].y < b.min.y { b.min.y = r[j].y; }
-                if r[j].x > b.max.x { b.max.x = r[j].x; }
-                if r[j].y > b.max.y { b.max.y = r[j].y; }
-                j += 1;
-            }
-        }
-        i += 1;
-    }
-    (any, b)
-}
-
-pub fn fill_queue_contract_body<F: AnyF, S: Src>(s: &mut S, collapsed: [usize; 3]) {
+/// One instance of the fill_queue contract.  `shape` (concrete per harness) selects a small operand pair:
+///   0: subject = one triangle (3 edges), clipping empty            -> per-edge clauses, boxes
+///   1: subject = one 2-gon with a 2-gon hole, clipping empty       -> hole flag / id
+///   2: subject = one 2-gon, clipping = one 2-gon                  -> clipping flag / id incl. the difference rule
+///   3: subject = two 2-gons, clipping empty                       -> ids count up per polygon
+///   4: subject = triangle whose first edge is collapsed (repeated vertex) -> no events for it
+/// (a "2-gon" is the ring a, b, a: two edges, the smallest ring Polygon::new leaves alone).
+pub fn fill_queue_contract_body<F: AnyF, S: Src>(s: &mut S, shape: u8) {
     let op = any_op(s);
-    let ext = [pt::<F, S>(s), pt::<F, S>(s), pt::<F, S>(s)];
-    let hole = [pt::<F, S>(s), pt::<F, S>(s), pt::<F, S>(s)];
-    let cl = [pt::<F, S>(s), pt::<F, S>(s), pt::<F, S>(s)];
-    let subject = [Polygon::new(ring(ext), vec![ring(hole)])];
-    let clipping = [Polygon::new(ring(cl), vec![])];
+    let v = [pt::<F, S>(s), pt::<F, S>(s), pt::<F, S>(s), pt::<F, S>(s)];
+    let gon = |a: Coord<F>, b: Coord<F>| LineString(vec![a, b, a]);
+    let (subject, clipping): (Vec<Polygon<F>>, Vec<Polygon<F>>) = match shape {
+        0 => (vec![Polygon::new(ring([v[0], v[1], v[2]]), vec![])], vec![]),
+        1 => (vec![Polygon::new(gon(v[0], v[1]), vec![gon(v[2], v[3])])], vec![]),
+        2 => (vec![Polygon::new(gon(v[0], v[1]), vec![])], vec![Polygon::new(gon(v[2], v[3]), vec![])]),
+        3 => (vec![Polygon::new(gon(v[0], v[1]), vec![]), Polygon::new(gon(v[2], v[3]), vec![])], vec![]),
+        _ => (vec![Polygon::new(ring([v[0], v[0], v[2]]), vec![])], vec![]),
+    };
+    // requires (shape of the instance): the edges that are meant to exist are non-degenerate
+    match shape {
+        0 => s.assume(v[0] != v[1] && v[1] != v[2] && v[2] != v[0]),
+        4 => s.assume(v[0] != v[2]),
+        _ => s.assume(v[0] != v[1] && v[2] != v[3]),
+    }
     let init = BoundingBox { min: Coord { x: F::infinity(), y: F::infinity() }, max: Coord { x: F::neg_infinity(), y: F::neg_infinity() } };
     let (mut sbbox, mut cbbox) = (init, init);
-    // requires (shape of this instance): which edges are collapsed (repeated consecutive vertex)
-    s.assume(ring_shape(ext, collapsed[0]) && ring_shape(hole, collapsed[1]) && ring_shape(cl, collapsed[2]));
     vcover!(op == Operation::Difference, "difference-ids");
-    vcover!(lex_lt(ext[1], ext[0]), "edge-against-sweep-direction");
+    vcover!(lex_lt(v[1], v[0]), "edge-against-sweep-direction");
 
     let queue = fill_queue(&subject, &clipping, &mut sbbox, &mut cbbox, op);
 
     let ev = take_pushed::<F>(queue);
-    let mut k = 0;
-    k = check_ring(&ev, k, ext, collapsed[0], true, 1, true);
-    k = check_ring(&ev, k, hole, collapsed[1], true, 1, false);
-    // clipping rings: a new id and exterior flag unless the operation is a difference
+    // edges in creation order: (start, end, subject, contour id, exterior flag)
     let (cid, cext) = if op != Operation::Difference { (2, true) } else { (1, false) };
-    k = check_ring(&ev, k, cl, collapsed[2], false, cid, cext);
-    assert!(k == ev.len(), "C13: no events besides one pair per non-degenerate edge");
-    // exact boxes
-    let (sany, sb) = fold_box(&[ext, hole]);
-    let (cany, cb) = fold_box(&[cl]);
+    let edges: Vec<(Coord<F>, Coord<F>, bool, u32, bool)> = match shape {
+        0 => vec![(v[0], v[1], true, 1, true), (v[1], v[2], true, 1, true), (v[2], v[0], true, 1, true)],
+        1 => vec![(v[0], v[1], true, 1, true), (v[1], v[0], true, 1, true), (v[2], v[3], true, 1, false), (v[3], v[2], true, 1, false)],
+        2 => vec![(v[0], v[1], true, 1, true), (v[1], v[0], true, 1, true), (v[2], v[3], false, cid, cext), (v[3], v[2], false, cid, cext)],
+        3 => vec![(v[0], v[1], true, 1, true), (v[1], v[0], true, 1, true), (v[2], v[3], true, 2, true), (v[3], v[2], true, 2, true)],
+        _ => vec![(v[0], v[2], true, 1, true), (v[2], v[0], true, 1, true)],
+    };
+    assert!(ev.len() == 2 * edges.len(), "C13: exactly one pair of events per non-degenerate edge, none for a collapsed edge");
+    let mut k = 0;
+    while k < edges.len() {
+        let (u, vv, subj, id, exterior) = edges[k];
+        let (e1, e2) = (&ev[2 * k], &ev[2 * k + 1]);
+        assert!(e1.point == u && e2.point == vv, "C04/C13: the two events sit on the edge's two vertices, bit for bit");
+        assert!(linked(e1, e2), "C13: the pair is mutually linked");
+        assert!(e1.is_left() != e2.is_left(), "C13: exactly one of the pair is the left event");
+        assert!(e1.is_left() == lex_lt(u, vv), "C13/C07: the left event is the (x, y)-smaller vertex, whatever the edge's direction");
+        assert!(e1.is_subject == subj && e2.is_subject == subj, "C13: operand flag");
+        assert!(e1.contour_id == id && e2.contour_id == id, "C05/C13: contour id");
+        assert!(e1.is_exterior_ring == exterior && e2.is_exterior_ring == exterior, "C05/C13: exterior-ring flag");
+        k += 1;
+    }
+    // exact boxes: min / max over the vertices of each operand's edges; an operand without edges keeps the empty box
+    let (mut sb, mut cb) = (init, init);
+    let mut k = 0;
+    while k < edges.len() {
+        let (u, _vv, subj, _id, _ext) = edges[k];
+        let b = if subj { &mut sb } else { &mut cb };
+        if u.x < b.min.x { b.min.x = u.x; }
+        if u.y < b.min.y { b.min.y = u.y; }
+        if u.x > b.max.x { b.max.x = u.x; }
+        if u.y > b.max.y { b.max.y = u.y; }
+        k += 1;
+    }
     assert!(sbbox == sb, "C13: subject box is the exact min/max over the vertices");
     assert!(cbbox == cb, "C13: clipping box is the exact min/max over the vertices");
-    std::mem::forget((ev, subject, clipping));
+    std::mem::forget((ev, subject, clipping, edges));
 }
 
 // ---- U-Q3 ---------------------------------------------------------------------------------------------------------------
@@ -231,30 +235,24 @@ mod proofs {
     use super::super::order::orient2d_unreachable;
     use super::*;
 
-    #[kani::proof]
-    #[kani::stub(robust::orient2d, orient2d_unreachable)]
-    #[kani::stub(std::collections::BinaryHeap::push, heap_push_recorder)]
-    #[kani::unwind(6)]
-    fn fill_queue_contract_f64() {
-        fill_queue_contract_body::<f64, _>(&mut KaniSrc, [3, 3, 3]);
+    macro_rules! fq_harness {
+        ($name:ident, $f:ty, $shape:expr) => {
+            #[kani::proof]
+            #[kani::stub(robust::orient2d, orient2d_unreachable)]
+            #[kani::stub(std::collections::BinaryHeap::push, heap_push_recorder)]
+            #[kani::unwind(7)]
+            fn $name() {
+                fill_queue_contract_body::<$f, _>(&mut KaniSrc, $shape);
+            }
+        };
     }
-
-    /// repeated consecutive vertices: one collapsed edge in the exterior ring, one in the clipping ring
-    #[kani::proof]
-    #[kani::stub(robust::orient2d, orient2d_unreachable)]
-    #[kani::stub(std::collections::BinaryHeap::push, heap_push_recorder)]
-    #[kani::unwind(6)]
-    fn fill_queue_collapsed_f64() {
-        fill_queue_contract_body::<f64, _>(&mut KaniSrc, [0, 3, 2]);
-    }
-
-    #[kani::proof]
-    #[kani::stub(robust::orient2d, orient2d_unreachable)]
-    #[kani::stub(std::collections::BinaryHeap::push, heap_push_recorder)]
-    #[kani::unwind(6)]
-    fn fill_queue_contract_f32() {
-        fill_queue_contract_body::<f32, _>(&mut KaniSrc, [3, 3, 3]);
-    }
+    fq_harness!(fill_queue_triangle_f64, f64, 0);
+    fq_harness!(fill_queue_hole_f64, f64, 1);
+    fq_harness!(fill_queue_clipping_f64, f64, 2);
+    fq_harness!(fill_queue_two_polygons_f64, f64, 3);
+    fq_harness!(fill_queue_collapsed_f64, f64, 4);
+    fq_harness!(fill_queue_triangle_f32, f32, 0);
+    fq_harness!(fill_queue_clipping_f32, f32, 2);
 
     #[kani::proof]
     #[kani::stub(robust::orient2d, orient2d_unreachable)]
